@@ -36,8 +36,10 @@ U_SAME = ("class Helper:\n    def meth(self, q: str) -> str:\n        ...\n\n\nc
 
 def m_source(base: str, order: int) -> str:
     decls = list(M_DECLS)
-    head = ["from __future__ import annotations", "import argparse", "from decimal import Decimal", "from enum import Enum", "from typing import Generic, TypeVar", "", 'T = TypeVar("T")']
-    decls.append("def money(d: Decimal) -> Decimal:\n    ...\n")      # a class of another library; an unrelated module may define a class of that name
+    head = ["from __future__ import annotations", "import argparse", "from decimal import Decimal", "from email.message import Message", "from gadgetlib_ext import ExtThing", "from enum import Enum", "from typing import Generic, TypeVar", "", 'T = TypeVar("T")']
+    decls.append("def money(d: Decimal) -> Decimal:\n    ...\n")
+    decls.append("def mail(m: Message) -> Message:\n    ...\n")      # a class of a sub-module of another library
+    decls.append("def ext(t: ExtThing) -> ExtThing:\n    ...\n")      # a class of a library that is not installed where the analysis runs      # a class of another library; an unrelated module may define a class of that name
     # named like a module of the standard library that an unrelated package file may import
     decls.append("def logging(level: int) -> int:\n    ...\n")
     # a type that only the docstring names; an unrelated module may define a class of that name
@@ -78,7 +80,7 @@ def package(base: str, u: int, u2: int, order: int, ri: int = 0):
         files["_mixin.py"] = f"from {PKG}.tables import Table\n\n\nclass _Summarizable:\n    def summarize(self, t: Table) -> Table:\n        ...\n"
     sibling = (f"from {PKG}._mixin import _Summarizable\n\n\nclass OtherReport(_Summarizable):\n    def render(self) -> int:\n        ...\n"
                if base == "private-mixin" else U_PLAIN)
-    content = {1: U_PLAIN, 2: U_CHANGED, 3: U_SAME, 4: sibling, 5: U_PLAIN}
+    content = {1: U_PLAIN, 2: U_CHANGED, 3: U_SAME, 4: sibling, 5: U_PLAIN, 6: U_PLAIN}
     if u:
         files["umod.py"] = content[u]
         files["amod.py"] = content[u].replace("OtherReport", "OtherReportA") if u == 4 else TRAIL.format(body=content[u].replace("Unrelated", "UnrelatedA").replace("unrelated_fun", "unrelated_fun_a"), name="ARec")
@@ -88,6 +90,11 @@ def package(base: str, u: int, u2: int, order: int, ri: int = 0):
         # ... and in a package with a module called like the other library's; its package file imports a standard-library module called like M's function
         files["utilpk/__init__.py"] = "import logging\n"
         files["utilpk/decimal.py"] = "class Decimal:\n    pass\n"
+        files["utilpk/email/__init__.py"] = ""
+        files["utilpk/email/message.py"] = "class Message:\n    pass\n"
+    if u == 6:      # an unrelated module is called like a library that M uses and that is not installed, and defines a class of that name
+        files["utilpk/__init__.py"] = ""
+        files["utilpk/gadgetlib_ext.py"] = "class ExtThing:\n    pass\n"
     if u == 5:      # an unrelated module defines a class called like the type that M's docstring names
         files["utilpk/__init__.py"] = ""
         files["utilpk/gadgets.py"] = "class Widget:\n    pass\n"
@@ -107,7 +114,7 @@ START_U = {"rename-unrelated": 1, "change-unrelated": 1, "remove-unrelated": 1}
 
 def apply(kind, u):
     return {"add-plain": (1, 0, 1), "add-same-names": (3, 0, 1), "rename-unrelated": (0, u, 1), "change-unrelated": (2, 0, 1),
-            "remove-unrelated": (0, 0, 1), "permute-own": (u, 0, 2), "reexport-unrelated-same-name": (3, 0, 1, 1), "add-sibling-subclass": (4, 0, 1), "reexport-unrelated-prefix-module": (0, 0, 1, 2), "add-class-named-in-docstring": (5, 0, 1)}[kind]
+            "remove-unrelated": (0, 0, 1), "permute-own": (u, 0, 2), "reexport-unrelated-same-name": (3, 0, 1, 1), "add-sibling-subclass": (4, 0, 1), "reexport-unrelated-prefix-module": (0, 0, 1, 2), "add-class-named-in-docstring": (5, 0, 1), "add-module-named-like-uninstalled-library": (6, 0, 1)}[kind]
 
 
 def facts(r):
